@@ -23,7 +23,8 @@ INT_VALS = [0, -1, 1, 42, 2147483647, -2147483648]
 LONG_VALS = [0, -7, 5000000000, -5000000000, 9223372036854775807]
 STR_VALS = ["", "a", "0", "hi there", "x_y"]
 MODES = ["local", "copyinit", "assign_var", "assign_ctor", "param_var", "param_ctor", "return_init", "return_direct",
-         "return_param"]
+         "return_param", "loop_break", "loop_continue", "fn_return"]
+# the last three leave the matching arm by break / continue / return: exactly one arm runs and control goes where the statement says
 
 
 class Shape:
@@ -71,17 +72,18 @@ def payload_text(kind, p):
     return {"none": ""}.get(kind, str(p))
 
 
-def arm_src(sh, i, pat):
+def arm_src(sh, i, pat, tail=""):
+    t = (" " + (tail % i if "%d" in tail else tail)) if tail else ""
     if pat == "_":
-        return '_ => { println("arm%d"); }' % i
+        return '_ => { println("arm%d");%s }' % (i, t)
     k = sh.kinds[pat]
     if k == "none":
-        return '%s => { println("arm%d"); }' % (sh.vnames[pat], i)
-    return '%s(p%d) => { println("arm%d[", p%d, "]"); }' % (sh.vnames[pat], i, i, i)
+        return '%s => { println("arm%d");%s }' % (sh.vnames[pat], i, t)
+    return '%s(p%d) => { println("arm%d[", p%d, "]");%s }' % (sh.vnames[pat], i, i, i, t)
 
 
-def match_src(sh, scrut, arms, ind="    "):
-    return ind + "match (%s) {\n" % scrut + "".join(ind + "    " + arm_src(sh, i, p) + "\n" for i, p in enumerate(arms)) + ind + "}\n"
+def match_src(sh, scrut, arms, ind="    ", tail=""):
+    return ind + "match (%s) {\n" % scrut + "".join(ind + "    " + arm_src(sh, i, p, tail) + "\n" for i, p in enumerate(arms)) + ind + "}\n"
 
 
 def render_match(sh, v, payload, arms, mode, other):
@@ -113,6 +115,15 @@ def render_match(sh, v, payload, arms, mode, other):
         body = match_src(sh, "mk()", arms)
     elif mode == "return_param":
         body = "    show(mk());\n"
+    elif mode == "loop_break":
+        body = ("    %s s = %s;\n    int n = 0;\n    while (n < 3) {\n        n = n + 1;\n" % (T, c) + match_src(sh, "s", arms, "        ", "break;") +
+                "        println(\"after\", n);\n    }\n    println(\"n\", n);\n")
+    elif mode == "loop_continue":
+        body = ("    %s s = %s;\n    int n = 0;\n    while (n < 3) {\n        n = n + 1;\n" % (T, c) + match_src(sh, "s", arms, "        ", "continue;") +
+                "        println(\"after\", n);\n    }\n    println(\"n\", n);\n")
+    elif mode == "fn_return":
+        pre += "int pick(%s x) {\n%s    println(\"fell\");\n    return -1;\n}\n" % (T, match_src(sh, "x", arms, "    ", "return 10 + %d;"))
+        body = "    %s t = %s;\n    int rr = pick(t);\n    println(\"r\", rr);\n" % (T, c)
     return pre + "int main() {\n" + body + "    println(\"END\");\n    return 0;\n}\n"
 
 
@@ -133,14 +144,19 @@ def tags_of(sh, v, payload, mode):
     return t
 
 
-def expected_match(arm, sh, arms, v, payload):
+def expected_match(arm, sh, arms, v, payload, mode="local"):
     if arm == "none":
         return "", "error"
     i = int(arm)
     p = arms[i]
-    if p == "_" or sh.kinds[p] == "none":
-        return "arm%d\nEND\n" % i, "ok"
-    return "arm%d[ %s ]\nEND\n" % (i, payload_text(sh.kinds[p], payload)), "ok"
+    line = "arm%d\n" % i if (p == "_" or sh.kinds[p] == "none") else "arm%d[ %s ]\n" % (i, payload_text(sh.kinds[p], payload))
+    if mode == "loop_break":
+        return line + "n 1\nEND\n", "ok"
+    if mode == "loop_continue":
+        return line * 3 + "n 3\nEND\n", "ok"
+    if mode == "fn_return":
+        return line + "r %d\nEND\n" % (10 + i), "ok"
+    return line + "END\n", "ok"
 
 
 # ---------------------------------------------------------------- generators
@@ -452,12 +468,12 @@ def main(a):
     dist["match"] = len(mc)
     for k, (c, m, o) in enumerate(zip(mc, mo, outs)):
         sh, vv, p, arms, mode, other = c
-        exp, cls = expected_match(m, sh, arms, vv, p)
+        exp, cls = expected_match(m, sh, arms, vv, p, mode)
         nontrivial.add(("match", tuple(sh.kinds), vv, tuple(arms), mode))
         if k % 97 == 0 and len(samples) < 4:
             samples.append({"suite": "match", "mode": mode, "arms": [str(x) for x in arms], "expected": exp[:60]})
         if cls == "error":
-            bad = o[1] != "error" or o[0] != ""
+            bad = o[1] != "error" or o[0] != "" if mode not in ("loop_break", "loop_continue", "fn_return") else o[1] != "error"
         else:
             bad = o[0] != exp or o[1] != cls
         if bad:
